@@ -20,6 +20,11 @@ CHECKS = {
    text="TLC proves on the bounded model that the interpreter state is a function of the stored segments (Reconstruct) so a split at any command boundary is invisible, and enumerates every behaviour x every set of cut positions; each is executed on the real Path by every append operator and compared with the specification's unsplit segments.",
    note="Trusted: TLC, PathInterp.tla, projection code. Path+Shape compares the appended tail with Path(shape) (C06 owns the decomposition).",
    design="5/C17"),
+ "C16": dict(
+   technique="TLA+ geometry abstraction PathOps (sub-path rule, Mirror, MirrorSub, integer affine maps) model-checked by TLC (Involution, ClosedStays, OnlyThatSub, NoPointLost); every shape x operation history replayed on real Path objects",
+   text="TLC enumerates every path shape of <= MaxSegs segments over M L Q C A Z (incl. zero-length closes, sub-paths without their own move, fragments) and every history of reverse / subpath-reverse / integer affine map up to MaxOps, carrying the expected geometry; the real path built from segment objects is driven through the same history and its projected geometry compared (closed sub-paths up to cyclic rotation).",
+   note="Trusted: TLC, PathOps.tla, the ~40-line Python projection of a real Path onto the abstraction. Arcs compared through the library's Arc constructor. Two known-finding classes (paths whose sub-paths lack their own move) are reported as KNOWN-FINDING; the well-formed class is fully guarded.",
+   design="5/C16"),
 }
 NOT_BUILT = "check not built yet (planned: DESIGN.md section 5)"
 
